@@ -6,6 +6,7 @@ From Coq Require Import ZifyBool ZifyN.
 From LE Require Import Exec.VerifyBlock Exec.Process.
 Import ListNotations.
 Local Open Scope N_scope.
+Set Default Timeout 20.
 
 (* what forge() obtains and computes *)
 Record genv := mkGE {
@@ -73,15 +74,15 @@ Proof.
   unfold process_validated. rewrite Htip. unfold verify_block.
   cbn [b_header h_version h_height h_prev h_timestamp h_gen h_mhp].
   fold (forge_block tip g).
-  assert (E1 : (ve_max_payload v <? payload_size (forge_block tip g)) = false) by lia. rewrite E1.
+  assert (E1 : (ve_max_payload v <? payload_size (forge_block tip g)) = false) by (apply N.ltb_ge; exact Hsz). rewrite E1.
   rewrite N.eqb_refl, beq_refl. cbn [negb N.eqb Pos.eqb].
-  assert (E2 : (slot_of v (ve_now v) <? slot_of v (ge_now g)) = false) by lia. rewrite E2.
-  assert (E3 : (slot_of v (ge_now g) <=? slot_of v (h_timestamp tip)) = false) by lia. rewrite E3.
+  assert (E2 : (slot_of v (ve_now v) <? slot_of v (ge_now g)) = false) by (apply N.ltb_ge; exact T2). rewrite E2.
+  assert (E3 : (slot_of v (ge_now g) <=? slot_of v (h_timestamp tip)) = false) by (apply N.leb_gt; exact T1). rewrite E3.
   rewrite G1. cbn [negb]. destruct (ve_generators v) as [|g0 gs] eqn:Eg; [congruence|]. rewrite <- Eg in *. rewrite G2.
   rewrite beq_refl, M, N.eqb_refl, C, A, S. cbn [negb].
   unfold execute_block. rewrite X1, X2, X3, X4. cbn [negb]. rewrite (tx_loop_all_ok _ _ Xt). rewrite X5. cbn [negb].
   assert (E4 : (xe_params_changed x && negb (xe_set_params_ok x)) = false).
   { destruct (xe_params_changed x); [rewrite X6 by reflexivity|]; reflexivity. }
   rewrite E4. cbn [b_header h_vhash h_eventroot forge_block]. rewrite V, ER, !beq_refl. cbn [negb].
-  assert (E5 : (max_events <? xe_nevents x) = false) by lia. rewrite E5, CM. reflexivity.
+  assert (E5 : (max_events <? xe_nevents x) = false) by (apply N.ltb_ge; exact NE). rewrite E5, CM. reflexivity.
 Qed.
